@@ -343,11 +343,16 @@ func newKey(r *rand.Rand) *ecdsa.PrivateKey {
 }
 
 func (s *wireServer) dial(r *rand.Rand) (*wireClient, error) {
+	return s.dialAs(r, newKey(r))
+}
+
+// dialAs connects as the remote with the given key (the same key is the same peer to the node).
+func (s *wireServer) dialAs(r *rand.Rand, key *ecdsa.PrivateKey) (*wireClient, error) {
 	fd, err := net.DialTimeout("tcp", s.srv.ListenAddr, 3*time.Second)
 	if err != nil {
 		return nil, err
 	}
-	return &wireClient{srvID: s.id, addr: s.srv.ListenAddr, key: newKey(r), tap: &tapConn{Conn: fd}, r: r}, nil
+	return &wireClient{srvID: s.id, addr: s.srv.ListenAddr, key: key, tap: &tapConn{Conn: fd}, r: r}, nil
 }
 
 // observeClosed: the node closed the TCP connection (read returns an error other than timeout).
